@@ -287,6 +287,16 @@ cfg["C22"] = {
     "assumptions": ledger_assume + ["locks are blocking mutual-exclusion models keyed like the real ones; lock leases never expire"],
 }
 
+cfg["C27"] = {
+    "title": "Service discovery subscribers converge to the registered set", "design_ref": "DESIGN.md §7.5 C27",
+    "runs": [{"dir": "discovery/helium", "quick": P("VerifHelium", "subs=2,steps=3", "subs=2,steps=3,slow=1", "subs=3,steps=2,choices=2"),
+              "thorough": P("VerifHelium", "subs=2,steps=3", "subs=2,steps=3,slow=1", "subs=3,steps=2,choices=2", "subs=2,steps=4", "subs=3,steps=3,slow=1", "subs=2,steps=3,choices=4", "subs=2,steps=3,sched=lazy"), "samples": 2}],
+    "bounds": "the real Helium (New/start loop, dispatch, Subscribe, Unsubscribe) with 2-3 subscribers, each reading promptly (a goroutine draining its channel) or slow (not reading; symbolic per subscriber), and a SYMBOLIC sequence of 2-4 environment events: registrations change (one of three address sets arrives on the store's watch stream), the push interval elapses (a tick), a subscriber's context ends, a subscriber unsubscribes (after its context ended, as the cluster layer does). After every event the system runs until every goroutine is idle; then every live prompt subscriber must hold the latest registered set, and an unsubscribed one must have seen its channel closed. Go channel semantics are exact (unbuffered = rendezvous, select = first ready case); goroutines are scheduled cooperatively (eager; thorough also lazy and 2-4 symbolic scheduling choices). A call that can never return is a hang violation",
+    "outside": "the etcd watch behind ServiceStatusStream (store/etcdv3/service.go: I/O) and service registration itself; real time (the ticker is a channel the harness feeds; 'within one push interval' is read as 'after the next dispatch'); more than 3 subscribers or 4 events; subscribing while the loop is running concurrently with a dispatch (haxmap's own thread-safety); the RPC layer's WatchServiceStatus loop",
+    "assumptions": [common_stubs + "; haxmap: insertion-ordered table; time.NewTicker: a harness-fed channel; uuid.New: counter; context: tree model with real Done channels",
+                    "natively (replay of counterexamples) the ticker is the real one-second ticker and a hang is detected by a 20 s cap"],
+}
+
 cfg["C35"] = {
     "title": "RPC authentication accepts exactly matching credentials", "design_ref": "DESIGN.md §4 C35 / §7.2",
     "runs": [{"dir": "auth/simple", "quick": P("VerifAuth", "u=2,p=1,same=1", "u=3,p=0,same=1", "u=2,p=1", "u=2,p=1,cu=3,cp=0", "u=1,p=2"), "thorough": P("VerifAuth", "u=2,p=1,same=1", "u=3,p=0,same=1", "u=3,p=2,same=1", "u=2,p=1", "u=2,p=1,cu=3,cp=0", "u=1,p=2", "u=3,p=1", "u=3,p=2,cu=2,cp=2"), "samples": 3}],
@@ -296,6 +306,7 @@ cfg["C35"] = {
 }
 
 meta = {
+    "C27": "discovery/helium's loop, dispatch, Subscribe and Unsubscribe are executed under gosym's cooperative scheduler with exact Go channel semantics; the environment's events (registration change, tick, context end, unsubscribe) are a symbolic sequence and each subscriber is symbolically prompt or slow; z3-decided paths prove convergence of every live prompt subscriber and completion of Unsubscribe, outside one recorded finding (a slow subscriber blocks the dispatcher).",
     "C22": "Two real cluster API calls (RemoveNode, CreateWorkload, SetNode, RemoveWorkload ...) run as two interpreted goroutines over one ledger world with blocking locks under gosym's cooperative scheduler; each external call is a scheduling point and the preemption decisions are symbolic Booleans, so the solver-driven exploration covers every interleaving at external-call granularity within the preemption budget; z3-decided paths prove referential consistency at quiescence, outside one recorded finding (remove-node racing with a deployment on that node).",
     "C13": "The real CreateWorkload pipeline runs against the ledger world whose store model keeps the in-progress marker with the BatchCreateAndDecr contract; an observer evaluates the reported deploy status at every intercepted call; z3-decided paths prove the status stays within [recorded workloads, prior + planned] during the deployment and equals the recorded workloads with no marker left after it returned, for every single-fault position.",
     "C35": "simple.BasicCredential.GetRequestMetadata, grpc metadata.NewIncomingContext/FromIncomingContext and BasicAuth.{UnaryInterceptor,StreamInterceptor,doAuth} are executed on usernames/passwords made of symbolic bytes with a stub for the HTTP/2 transport; z3 proves per path that both calls are served iff the usernames are the same metadata key and the passwords are equal; natively replayed paths repeat both calls over a real in-process gRPC connection.",
